@@ -113,7 +113,10 @@ inductive Getter
   | ino | inoIsSet | nlink | uid | uidIsSet | gid | gidIsSet | size | sizeIsSet
   | mode | filetype | filetypeIsSet | perm | permIsSet | strmode
   | str (f : StrField) | hardlink | hardlinkIsSet | symlink
-  | fflags | symlinkType | isDataEncrypted | isMetadataEncrypted | isEncrypted
+  | fflags
+  /-- `archive_entry_fflags_text` -/
+  | fflagsText
+  | symlinkType | isDataEncrypted | isMetadataEncrypted | isEncrypted
   /-- `archive_entry_sparse_count` -/
   | sparseCount
   /-- what `sparse_reset` followed by `sparse_next` until WARN enumerates -/
@@ -139,7 +142,8 @@ def obs : Getter → Entry → Val
   | .perm, e => .bv (perm e) | .permIsSet, e => .bool (permIsSet e) | .strmode, e => .chars (strmode e)
   | .str f, e => .str (getStr f e) | .hardlink, e => .str (hardlink e) | .hardlinkIsSet, e => .bool (hardlinkIsSet e)
   | .symlink, e => .str (symlink e)
-  | .fflags, e => .pair (fflags e).1 (fflags e).2 | .symlinkType, e => .int (symlinkType e)
+  | .fflags, e => .pair (fflags e).1 (fflags e).2 | .fflagsText, e => .str (fflagsTextV e)
+  | .symlinkType, e => .int (symlinkType e)
   | .isDataEncrypted, e => .bool (isDataEncrypted e) | .isMetadataEncrypted, e => .bool (isMetadataEncrypted e)
   | .isEncrypted, e => .nat (isEncrypted e)
   | .sparseCount, e => .nat (sparseCount e).2 | .sparseBlocks, e => .blocks (sparseCount e).1.sparse
@@ -188,7 +192,7 @@ def view : Group → Entry → View
   | .str f, e => { strs := [e.str f] }
   | .link, e => { bits := [e.has fHARDLINK, e.has fSYMLINK], strs := [e.ae_linkname] }
   | .strmode, e => { bits := [e.has fHARDLINK, e.has fSYMLINK], strs := [e.ae_linkname], bvs := [e.mode] }
-  | .fflags, e => { nats := [e.ae_fflags_set, e.ae_fflags_clear] }
+  | .fflags, e => { nats := [e.ae_fflags_set, e.ae_fflags_clear], strs := [e.ae_fflags_text] }
   | .symlinkType, e => { ints := [e.ae_symlink_type] }
   | .encryption, e => { enc := e.encryption }
   | .xattr, e => { xattrs := e.xattrs, nats := [e.xattr_p] }
@@ -210,7 +214,7 @@ def Getter.group : Getter → Group
   | .size | .sizeIsSet => .size
   | .mode => .modeWord | .filetype | .filetypeIsSet => .filetype | .perm | .permIsSet => .perm | .strmode => .strmode
   | .str f => .str f | .hardlink | .hardlinkIsSet | .symlink => .link
-  | .fflags => .fflags | .symlinkType => .symlinkType
+  | .fflags | .fflagsText => .fflags | .symlinkType => .symlinkType
   | .isDataEncrypted | .isMetadataEncrypted | .isEncrypted => .encryption
   | .sparseCount | .sparseBlocks => .sparse | .xattrCount | .xattrList => .xattr
   | .macMetadata => .mac | .digest _ => .digest | .stat => .statAll
@@ -235,7 +239,7 @@ def touches : Op → Group → Bool
   | .setStr f _, G => G == .str f
   | .setHardlink _, G | .copyHardlink _, G | .setSymlink _, G | .setLink _, G
   | .setLinkToHardlink, G | .setLinkToSymlink, G => G == .link || G == .strmode
-  | .setFflags _ _, G => G == .fflags
+  | .setFflags _ _, G | .copyFflagsText _, G | .fflagsText, G => G == .fflags
   | .setSymlinkType _, G => G == .symlinkType
   | .setIsDataEncrypted _, G | .setIsMetadataEncrypted _, G => G == .encryption
   | .sparseAdd _ _, G | .sparseClear, G | .sparseCount, G | .sparseReset, G | .sparseNext, G => G == .sparse
